@@ -19,6 +19,10 @@ CHECKS = {
          'every boolean result is evaluated at <= 260 sample points per operation with exact arithmetic: membership = op(membership of operands), no point '
          'covered twice, |winding| <= 1; area identities among or/and/xor/not; chained operations feed results with slits back in',
          'points within 2 grid units of an operand edge are not judged; operands sampled from lattice polygon families', '7/C05'),
+ 'C06': ('exploration', 'reference-model monitor: the spec flattened by hand (composed 2x3 matrices and repetition vectors) vs every hierarchy query, under ASan+UBSan',
+         '13 queries per library on cells and references (repetitions applied or attached, depth limits, tag filters, paths, labels), deep copy + mutate + free, '
+         'then flatten and re-query; polygon sets matched vertex by vertex, path results as guarded regions',
+         'leaf path outlines observed from to_polygons of the untransformed leaf; all paths scale their width; at most 300 flattened instances per library', '7/C06'),
  'C10': ('exploration', 'reference-model monitor: hand-composed 2x3 matrices vs element fields and outlines after transform sequences, under ASan+UBSan',
          'vertices/spines equal the matrix image; width/offset/extension scaling rules; label/reference fields must reproduce the composed placement; '
          'outline(T(path)) vs T(outline(path)) by guarded region sampling',
